@@ -21,7 +21,10 @@ package suites
 //	                  handler got wrong before the C17 fixes).
 //
 // A sequence case is: nick, callback kind ("" none, "c" constant, "a" append, "p" prepend),
-// callback argument, flags ("T" = tracking disabled), then one argument per event: fields
+// callback argument, flags ("T" = tracking disabled; "M" = the application has a foreground
+// ALL_EVENTS handler that rewrites its own event's Params, Source and Tags in place, which
+// Event.Copy's contract allows; "G" = Config.GlobalFormat, with nicknames and callback values
+// that contain {b} {i} {red} ... groups; neither may change what the client writes), then one argument per event: fields
 // separated by LF: command, source ("" none, "=" + name), parameters.  "$R" as a source name
 // or parameter stands for the nickname the client asked for most recently, "$N" for its
 // current nickname; the pseudo command "!NICK" is the application calling Cmd.Nick.
@@ -528,6 +531,37 @@ func pnNickLike(s string) bool {
 	return s != "" && !strings.ContainsAny(s[:1], "!#&*~+") && !strings.ContainsAny(s, " ,")
 }
 
+// pnMutatingHandler is an application handler that edits the event it was given: every
+// handler pass gets its own deep copy (RunHandlers), so this must stay invisible to the
+// built-in handlers.
+func pnMutatingHandler(_ *girc.Client, e girc.Event) {
+	for i := range e.Params {
+		e.Params[i] = strings.ToLower(e.Params[i])
+	}
+	if e.Source != nil {
+		e.Source.Name, e.Source.Ident, e.Source.Host = "zz", "zz", "zz.example"
+	}
+	for k := range e.Tags {
+		e.Tags[k] = "x"
+	}
+}
+
+// genPNFmtNick: a nickname by IsValidNick that contains Fmt() groups.
+func genPNFmtNick(r *rand.Rand) string {
+	g := func() string { return Pick(r, "{b}", "{i}", "{red}", "{c}", "{r}", "{u}", "{blue}", "{bold}") }
+	switch r.Intn(5) {
+	case 0:
+		return "[" + g() + "]ot"
+	case 1:
+		return "Bot" + g()
+	case 2:
+		return g() + "x" + g()
+	case 3:
+		return RandBytes(r, 1+r.Intn(3), "abXY") + g() + RandBytes(r, r.Intn(3), "abXY09")
+	}
+	return g()
+}
+
 // runPNSeq runs a sequence case. connected: events are lines written by the peer.
 func runPNSeq(c Case, connected bool) Result {
 	if len(c) < 4 {
@@ -540,8 +574,12 @@ func runPNSeq(c Case, connected bool) Result {
 	cfg.Nick = nick
 	cfg.AllowFlood = false
 	cfg.HandleNickCollide = cb
+	cfg.GlobalFormat = strings.Contains(flags, "G")
 	s := pnStart(cfg, noTracking)
 	defer s.Stop()
+	if strings.Contains(flags, "M") {
+		s.C.Handlers.Add(girc.ALL_EVENTS, pnMutatingHandler)
+	}
 
 	var obs strings.Builder
 	oracle := ""
@@ -1000,7 +1038,24 @@ func genPNSeqCase(r *rand.Rand, hostile bool) Case {
 			arg = Pick(r, "a b", ":x", "caf\xc3\xa9") // (nicknames stay wire-transparent: "$R" is read back from the wire)
 		}
 	}
-	c := Case{nick, kind, arg, ""}
+	flags := ""
+	if r.Intn(4) == 0 {
+		flags += "M"
+	}
+	fmtNicks := r.Intn(4) == 0
+	if fmtNicks {
+		flags += "G"
+		nick = genPNFmtNick(r)
+		switch kind {
+		case "c":
+			arg = Pick(r, "bot{i}", "{red}Alt", genPNFmtNick(r))
+		case "a":
+			arg = Pick(r, "{i}", "-{b}2", "_")
+		case "p":
+			arg = Pick(r, "{b}", "x{u}")
+		}
+	}
+	c := Case{nick, kind, arg, flags}
 	n := 1 + r.Intn(8)
 	registered := false
 	pendingReq := true  // a nickname request is outstanding
@@ -1071,6 +1126,9 @@ func genPNSeqCase(r *rand.Rand, hostile bool) Case {
 			if limit > 0 && limit < 40 && r.Intn(2) == 0 { // at / over the announced limit
 				un = "L" + RandBytes(r, limit-1+[]int{0, 0, 1, 5}[r.Intn(4)], pnNickAlphabet)
 			}
+			if fmtNicks && r.Intn(2) == 0 {
+				un = genPNFmtNick(r)
+			}
 			reqLen = len(un)
 			if hostile && r.Intn(5) == 0 {
 				un = Pick(r, "9start", "caf\xc3\xa9", "with space", "")
@@ -1081,6 +1139,9 @@ func genPNSeqCase(r *rand.Rand, hostile bool) Case {
 			ps := genPNPingParams(r, true)
 			for i := range ps {
 				ps[i] = strings.ReplaceAll(ps[i], "\n", "")
+			}
+			if r.Intn(3) == 0 {
+				ps = []string{Pick(r, "Tok En-42XYZ", "LAG-ABC", "Irc.Test.NET", "{b}Tok{i}")}
 			}
 			c = append(c, pnEv("PING", Pick(r, "", "=irc.test"), ps...))
 		case x < 17 && hostile:
@@ -1155,6 +1216,14 @@ func pnFixedSeq() []Case {
 		append(Case{"me", "p", "long_prefix_", "", welcome, isup("NICKLEN=2", "MAXNICKLEN=2")}, in(1)...),
 		append(Case{"me", "", "", "", pnEv("005", "=irc.test", "$N", "NICKLEN", "NICKLEN=", "=5", "MAXNICKLEN=abc", "are supported by this server")}, in(1)...),
 		append(Case{"me", "", "", "", pnEv("005", "=irc.test", "$N", "NICKLEN=2", "are supported"), pnEv("005", "=irc.test", "NICKLEN=2"), pnEv("005", "=irc.test")}, in(1)...),
+		// an application handler that rewrites its own copy of the event (seeded C17-9), and
+		// Config.GlobalFormat with {..} groups in nicknames (seeded C17-10), change nothing
+		append(Case{"TestBot", "", "", "M"}, append(in(2), pnEv("PING", "", "Tok En-42XYZ"), welcome, pnEv("NICK", "=$N", "NewNick"), pnEv("PING", "=Irc.Test", "A", "B c"))...),
+		append(Case{"TestBot", "a", "-X", "M"}, append(in(1), pnEv("001", "=irc.test", "GuestXY", "Welcome"), in(1)[0])...),
+		append(Case{"[{b}]ot", "", "", "G"}, in(2)...),
+		append(Case{"bot", "c", "bot{i}", "G"}, in(1)...),
+		append(Case{"me", "", "", "G", welcome, pnEv("!NICK", "", "{red}x{b}")}, in(2)...),
+		append(Case{"Test{b}Bot", "a", "{i}", "GM"}, in(2)...),
 		// PING shapes
 		Case{"me", "", "", "", pnEv("PING", "", "x"), pnEv("PING", ""), pnEv("PING", "", ""), pnEv("PING", "", ":x"), pnEv("PING", "", "a", "b c"), pnEv("PING", "=irc.test", "irc.test")},
 	)
@@ -1235,7 +1304,7 @@ func init() {
 		Gen: func(r *rand.Rand) Case {
 			c := genPNSeqCase(r, true)
 			if r.Intn(2) == 0 {
-				c[3] = "T"
+				c[3] += "T"
 			}
 			return c
 		},
